@@ -1115,6 +1115,15 @@ pub(crate) fn get_merged_string_output_address<'data, P: Platform>(
         input_offset = input_offset.wrapping_add(addend as u64);
     }
 
+    // An offset past the end of the section can't be part of any of its strings. Without this check,
+    // we'd search backwards from it, one byte at a time, for the start of a string.
+    let section_size = object.section_size(object.section(section_index)?)?;
+    if input_offset > section_size {
+        bail!(
+            "Reference to offset {input_offset} of a merge-string section with size {section_size}"
+        );
+    }
+
     let part_id = section_part_ids[input_section_id.as_usize()];
     let section_id = part_id.output_section_id();
     let strings_section = merged_strings.get(section_id);
